@@ -196,7 +196,12 @@ pub fn run(ctx: &Ctx) -> Report {
             cur = next;
         }
         // one other symbol inside short sequences: [select; other; reload | sleep+wake | reload, sleep+wake]
-        for o in &others {
+        // (a full-frame update and a clear are in the exhaustive alphabet only in the thorough tier; here
+        // they take part in both tiers)
+        let mut inner = others.clone();
+        inner.push(S::Frame);
+        inner.push(S::Clear);
+        for o in &inner {
             for sel in [S::SelQuick, S::SelFull] {
                 for tail in [vec![S::Reload], vec![S::SleepWake], vec![S::SleepWake, S::Reload], vec![S::Display, S::Reload]] {
                     let mut v = vec![sel, *o];
